@@ -88,6 +88,8 @@ var c12Failing = []string{
 	`{{ d.Show(1) }}`,                // ... of a method
 	`{{ 5 | describe }}`,             // ... piped
 	`{{ describeAll(stringer, 5) }}`, // ... in the variadic tail
+	`{{ describeAll(stringer, _) }}`, // round 8: a pipe slot in the variadic tail of a call that is not piped into
+	`{{ describe(_) }}`,              // ... in a fixed position
 	`{{ "a" % 2 }}`,                  // remainder / quotient of a non-number
 	`{{ str % 2 }}`,
 	`{{ digits % 2 }}`, // ... of a string that happens to hold digits
